@@ -14,6 +14,7 @@ import (
 	"strconv"
 	"strings"
 	"testing"
+	"time"
 
 	"cosmossdk.io/math"
 	"github.com/cosmos/cosmos-sdk/codec"
@@ -96,6 +97,15 @@ func newWorld(funds []int, nSubs int) *world {
 			mg.Params.InflationMin = math.LegacyZeroDec()
 			mg.Params.InflationRateChange = math.LegacyZeroDec()
 			gs[minttypes.ModuleName] = cdc.MustMarshalJSON(&mg)
+			// the native denom carries bank metadata (what Paloma's BankModule default genesis defines, as on the
+			// live chain), so that messages naming it get past the module's "has bank metadata" test
+			var want, bg banktypes.GenesisState
+			cdc.MustUnmarshalJSON(app.BankModule{}.DefaultGenesis(cdc), &want)
+			cdc.MustUnmarshalJSON(gs[banktypes.ModuleName], &bg)
+			if len(bg.DenomMetadata) == 0 {
+				bg.DenomMetadata = want.DenomMetadata
+			}
+			gs[banktypes.ModuleName] = cdc.MustMarshalJSON(&bg)
 		}})
 	w := &world{e: e, fee: fee, name: map[dkey]string{}, byName: map[string]dkey{}, nSubs: nSubs}
 	for c := 1; c <= nAcc; c++ {
@@ -271,15 +281,18 @@ func TestDriveTokenFactory(t *testing.T) {
 	if v := os.Getenv("VERIF_TF_SUBS"); v != "" {
 		nSubs, _ = strconv.Atoi(v)
 	}
+	t0 := time.Now()
 	for _, h := range hs {
 		runHistory(t, em, h, nSubs)
 	}
+	t.Logf("%d histories in %v", len(hs), time.Since(t0))
 }
 
 func runHistory(t *testing.T, em *drv.Emitter, h drv.History, nSubs int) {
 	steps := h.Steps
 	funds := envFunds()
-	if len(steps) > 0 && steps[0].Act == "Genesis" {
+	// "Genesis" is what the generator emits; "Init" is how the recorded trace (and a replay file) names the same step
+	if len(steps) > 0 && (steps[0].Act == "Genesis" || steps[0].Act == "Init") {
 		var g genesisArgs
 		if err := json.Unmarshal(steps[0].Args, &g); err != nil {
 			t.Fatal(err)
@@ -310,7 +323,7 @@ func runHistory(t *testing.T, em *drv.Emitter, h drv.History, nSubs int) {
 			t.Fatalf("history %d step %d: signer %d", h.H, i+1, a.Who)
 		}
 		ev := map[string]any{"h": h.H, "i": i + 1, "act": st.Act, "args": a, "res": "fail", "cs": "", "code": 0,
-			"nd": map[string]int{"c": 0, "s": 0}}
+			"nd": map[string]int{"c": 0, "s": 0}, "log": ""}
 		msg := w.msgFor(st.Act, a)
 		r, err := e.RunAs(e.User(a.Who-1), msg)
 		if err != nil {
